@@ -294,7 +294,8 @@ def evalLine (line : String) : String :=
         | _, _, _ => "X~parse"
       | "probe", [r] => match r.toInt? with
         | some r => ";".intercalate (([[0x61, r], [r, 0x61], [r, 0x308], [0x1F468, 0x200D, r],
-            [0x1F468, r, 0x200D, 0x1F469], [0x1F1E9, r], [0x1100, r], [r, 0x1161], [r, 0x11A8]] : List (List Int)).map
+            [0x1F468, r, 0x200D, 0x1F469], [0x1F1E9, r], [0x1100, r], [r, 0x1161], [r, 0x11A8],
+            [0x0D, r], [r, 0x0A], [0x1F468, r, 0x1F469], [0x1161, r]] : List (List Int)).map
               fun p => showInts (splitRunes p))
         | none => "X~parse"
       | "hist", [steps] => evalHist steps
